@@ -10,7 +10,7 @@ Ltac Zify.zify_post_hook ::= Z.to_euclidean_division_equations.
 
 (* structural reduction of slicing / codecs over lists whose spine is concrete *)
 Ltac layout :=
-  cbv [sub_at le_at be_at byte_at firstn skipn app rev le_encode be_encode le_decode be_decode be_decode_acc
+  cbv [sub_at le_at be_at byte_at firstn skipn app rev le_encode be_encode le_decode be_decode be_decode_acc List.repeat
        Nat.sub].
 
 Lemma if_true {A} (c : bool) (a b : A) : c = true -> (if c then a else b) = a.
@@ -50,9 +50,23 @@ Lemma be4_eq v : 0 <= v < 4294967296 ->
   (((0 * 256 + (v / 256 / 256 / 256) mod 256) * 256 + (v / 256 / 256) mod 256) * 256 + (v / 256) mod 256) * 256 + v mod 256 = v.
 Proof. lia. Qed.
 
-Ltac decode_encode :=
-  repeat first [ rewrite le8_eq by lia | rewrite le6_eq by lia | rewrite le4_eq by lia | rewrite le2_eq by lia
-               | rewrite be4_eq by lia | rewrite be3_eq by lia | rewrite be2_eq by lia ].
+(* each tactic backtracks over all instances of its pattern until the range side condition holds *)
+Ltac de_le8 := match goal with |- context [?v mod 256 + 256 * ((?v / 256) mod 256 + 256 * ((?v / 256 / 256) mod 256 + 256 *
+  ((?v / 256 / 256 / 256) mod 256 + 256 * ((?v / 256 / 256 / 256 / 256) mod 256 + 256 * ((?v / 256 / 256 / 256 / 256 / 256) mod 256 + 256 *
+  ((?v / 256 / 256 / 256 / 256 / 256 / 256) mod 256 + 256 * ((?v / 256 / 256 / 256 / 256 / 256 / 256 / 256) mod 256 + 256 * 0)))))))] =>
+  rewrite (le8_eq v) by lia end.
+Ltac de_le6 := match goal with |- context [?v mod 256 + 256 * ((?v / 256) mod 256 + 256 * ((?v / 256 / 256) mod 256 + 256 *
+  ((?v / 256 / 256 / 256) mod 256 + 256 * ((?v / 256 / 256 / 256 / 256) mod 256 + 256 * ((?v / 256 / 256 / 256 / 256 / 256) mod 256 + 256 * 0)))))] =>
+  rewrite (le6_eq v) by lia end.
+Ltac de_le4 := match goal with |- context [?v mod 256 + 256 * ((?v / 256) mod 256 + 256 * ((?v / 256 / 256) mod 256 + 256 *
+  ((?v / 256 / 256 / 256) mod 256 + 256 * 0)))] => rewrite (le4_eq v) by lia end.
+Ltac de_le2 := match goal with |- context [?v mod 256 + 256 * ((?v / 256) mod 256 + 256 * 0)] => rewrite (le2_eq v) by lia end.
+Ltac de_be4 := match goal with |- context [(((0 * 256 + (?v / 256 / 256 / 256) mod 256) * 256 + (?v / 256 / 256) mod 256) * 256 +
+  (?v / 256) mod 256) * 256 + ?v mod 256] => rewrite (be4_eq v) by lia end.
+Ltac de_be3 := match goal with |- context [((0 * 256 + (?v / 256 / 256) mod 256) * 256 + (?v / 256) mod 256) * 256 + ?v mod 256] =>
+  rewrite (be3_eq v) by lia end.
+Ltac de_be2 := match goal with |- context [(0 * 256 + (?v / 256) mod 256) * 256 + ?v mod 256] => rewrite (be2_eq v) by lia end.
+Ltac decode_encode := repeat first [ de_le8 | de_le6 | de_le4 | de_le2 | de_be4 | de_be3 | de_be2 ].
 
 (* resolve the guards of a decoder one by one *)
 Ltac guard_false := rewrite if_false by lia.
